@@ -76,11 +76,32 @@ package erpc
 //@ ghost global socketWrites int
 //@ trusted socket.(*socket).WriteMessage in erpc.(*session).write
 //@   flags libframe
-//@   modifies as(message, type(*socket.message)).size, lockset, ghost.socketWrites
+//@   modifies as(message, type(*socket.message)).size, lockset, ghost.socketWrites, ghost.lastSocketWriteErr
 //@   ghostset ghost.socketWrites = old(ghost.socketWrites) + 1
+//@   ghostset ghost.lastSocketWriteErr = result
 //@   ensures sameLocks()
+// C14: the connection's write deadline belongs to the writer that holds the session's
+// write lock (whole-frame writes are serialised by it): it is armed only under that
+// lock, so a queued writer never re-arms the deadline of the write in progress
+// (the promoted net.Conn method of the socket; its unlocked read of socket.Conn is
+// the recorded C14 finding, listed there with its other call sites)
+//@ trusted net.(*socket).SetWriteDeadline in erpc.(*session).write
+//@   flags libframe
+//@   modifies nothing
+//@   requires[deadline-armed-under-the-write-lock] @C14 held(addr(s.writeLock))
+// the same for the early sends of a session that is still being prepared
+//@ trusted net.(*socket).SetWriteDeadline in erpc.(*session).doSend
+//@   flags libframe
+//@   modifies nothing
+//@   requires[deadline-armed-under-the-write-lock] @C14 held(addr(s.writeLock))
+//@ func (*session).doSend
+//@   property C14
+//@   flags libframe frame-unchecked
+//@   ensures[write-lock-released] sameLocks()
+// ghost.lastSocketWriteErr: what the latest socket write returned
+//@ ghost global lastSocketWriteErr iface
 //@ func (*session).write
-//@   property C07 C08
+//@   property C07 C08 C14
 //@   flags libframe frame-unchecked
 //@   requires?[wellformed-message] @C07 @C08 sentinelsIntact() && istype(message, type(*socket.message)) && as(message, type(*socket.message)) != nil
 //@   ensures[closed-session-fails-fast] @C07 !(old(s.status) == statusOk || (old(s.status) == statusActiveClosing && old(as(message, type(*socket.message)).mtype) == TypeReply)) ==> result.1 == statConnClosed && ghost.socketWrites == old(ghost.socketWrites)
@@ -88,7 +109,12 @@ package erpc
 //@   ensures[reply-still-written-while-closing] @C08 old(s.status) == statusActiveClosing && old(as(message, type(*socket.message)).mtype) == TypeReply ==> (result.1 == statConnClosed ==> ghost.socketWrites == old(ghost.socketWrites) + 1)
 //@   ensures[ok-means-written] @C07 @C08 statOK(result.1) ==> ghost.socketWrites == old(ghost.socketWrites) + 1
 //@   ensures[write-lock-released] @C07 sameLocks()
-//@   modifies as(message, type(*socket.message)).size, ghost.socketWrites
+// C08: a message that was admitted (established session, or a REPLY while closing
+// actively) is reported as "connection closed" only if the socket said the
+// connection is gone; any other failure (encoding, deadline) is a write failure, so
+// that the handler's fallback error reply is still attempted while closing
+//@   ensures[connection-error-only-when-the-connection-is-lost] @C08 (old(s.status) == statusOk || (old(s.status) == statusActiveClosing && old(as(message, type(*socket.message)).mtype) == TypeReply)) && result.1 == statConnClosed ==> ghost.socketWrites == old(ghost.socketWrites) + 1 && (ghost.lastSocketWriteErr == io.EOF || ghost.lastSocketWriteErr == socket.ErrProactivelyCloseSocket)
+//@   modifies as(message, type(*socket.message)).size, ghost.socketWrites, ghost.lastSocketWriteErr
 //@   ghostset ghost.writeAttempts = old(ghost.writeAttempts) + 1
 //@   ghostset ghost.writesOK = old(ghost.writesOK) + (statOK(result.1) ? 1 : 0)
 //@   ghostset ghost.lastWriteOK = statOK(result.1)
@@ -101,7 +127,7 @@ package erpc
 //@   flags libframe
 //@   requires ctxShape(c) && c.sess != nil
 //@   let mo = as(c.output, type(*socket.message))
-//@   modifies mo.status, mo.body, mo.bodyCodec, mo.serviceMethod, mo.size, lockset, ghost.socketWrites, ghost.writeAttempts, ghost.writesOK, ghost.lastWriteOK
+//@   modifies mo.status, mo.body, mo.bodyCodec, mo.serviceMethod, mo.size, lockset, ghost.socketWrites, ghost.lastSocketWriteErr, ghost.writeAttempts, ghost.writesOK, ghost.lastWriteOK
 //@   requires[reply-to-this-call] @C03 mo.seq == as(c.input, type(*socket.message)).seq && mo.mtype == TypeReply
 //@   ensures[one-write] @C03 ghost.writeAttempts == old(ghost.writeAttempts) + 1 && ghost.writesOK == old(ghost.writesOK) + (statOK(result) ? 1 : 0) && ghost.lastWriteOK == statOK(result)
 //@   requires[through-callers-pipe] @C12 mo.xferPipe.#inheritedFrom == as(c.input, type(*socket.message)).xferPipe
@@ -110,7 +136,7 @@ package erpc
 //@   ensures[ok-reply-untouched] @C04 statOK(stat) ==> mo.status == old(mo.status) && mo.body == old(mo.body) && mo.bodyCodec == old(mo.bodyCodec)
 //@   ensures[service-method-restored] mo.serviceMethod == old(mo.serviceMethod)
 
-//@ frameset ctxRun(c *handlerCtx) = ghost.socketWrites, fields(c), allof(type(socket.message)), allof(type(utils.Args)), allelems(type(utils.argsKV)), allof(type(xfer.XferPipe)), allelems(type(xfer.XferFilter)), allelems(type(byte)), lockset, waitgroups, ghost.trace, ghost.vetoed, ghost.handlerCalls
+//@ frameset ctxRun(c *handlerCtx) = ghost.socketWrites, ghost.lastSocketWriteErr, fields(c), allof(type(socket.message)), allof(type(utils.Args)), allelems(type(utils.argsKV)), allof(type(xfer.XferPipe)), allelems(type(xfer.XferFilter)), allelems(type(byte)), lockset, waitgroups, ghost.trace, ghost.vetoed, ghost.handlerCalls
 //@ func (*handlerCtx).handleCall
 //@   property C12 C09 C03 C08
 //@   ensures[handler-count-untouched]! @C08 wgcount(addr(c.sess.graceCtxWaitGroup)) == old(wgcount(addr(c.sess.graceCtxWaitGroup)))
@@ -281,11 +307,15 @@ package erpc
 //@   modifies userCtx(as(ctx, type(*handlerCtx)))
 //@   ghostset ghost.trace = tcat(old(ghost.trace), ev(self, type(PostReadCallHeaderPlugin)))
 //@   ghostset ghost.vetoed = old(ghost.vetoed) || !statOK(result)
+// ghost: how often the header stage of an incoming CALL / PUSH was run
+//@ ghost global callHeaderStageRuns int
+//@ ghost global pushHeaderStageRuns int
 //@ func (*pluginSingleContainer).postReadCallHeader
 //@   property C09
+//@   ghostset ghost.callHeaderStageRuns = old(ghost.callHeaderStageRuns) + 1
 //@   requires[global-chain] @C09 p == as(ctx, type(*handlerCtx)).sess.peer.pluginContainer.pluginSingleContainer
 //@   flags libframe may-panic
-//@   modifies userCtx(as(ctx, type(*handlerCtx))), ghost.trace, ghost.vetoed
+//@   modifies userCtx(as(ctx, type(*handlerCtx))), ghost.trace, ghost.vetoed, ghost.callHeaderStageRuns
 //@   loop 0: invariant[in-order-once] $idx >= -1 && $idx < len(p.plugins) && ghost.trace == trS(rowof(p.plugins), off(p.plugins), $idx + 1, type(PostReadCallHeaderPlugin), old(ghost.trace))
 //@   ensures[all-in-order] statOK(result) ==> ghost.trace == trS(rowof(p.plugins), off(p.plugins), len(p.plugins), type(PostReadCallHeaderPlugin), old(ghost.trace))
 //@   ensures[stops-at-first-veto] !statOK(result) ==> (exists k int :: 0 < k && k <= len(p.plugins) && ghost.trace == trS(rowof(p.plugins), off(p.plugins), k, type(PostReadCallHeaderPlugin), old(ghost.trace)) && ifc(rowof(p.plugins)[off(p.plugins) + k - 1], type(PostReadCallHeaderPlugin)))
@@ -334,9 +364,10 @@ package erpc
 //@   ghostset ghost.vetoed = old(ghost.vetoed) || !statOK(result)
 //@ func (*pluginSingleContainer).postReadPushHeader
 //@   property C09
+//@   ghostset ghost.pushHeaderStageRuns = old(ghost.pushHeaderStageRuns) + 1
 //@   requires[global-chain] @C09 p == as(ctx, type(*handlerCtx)).sess.peer.pluginContainer.pluginSingleContainer
 //@   flags libframe may-panic
-//@   modifies userCtx(as(ctx, type(*handlerCtx))), ghost.trace, ghost.vetoed
+//@   modifies userCtx(as(ctx, type(*handlerCtx))), ghost.trace, ghost.vetoed, ghost.pushHeaderStageRuns
 //@   loop 0: invariant[in-order-once] $idx >= -1 && $idx < len(p.plugins) && ghost.trace == trS(rowof(p.plugins), off(p.plugins), $idx + 1, type(PostReadPushHeaderPlugin), old(ghost.trace))
 //@   ensures[all-in-order] statOK(result) ==> ghost.trace == trS(rowof(p.plugins), off(p.plugins), len(p.plugins), type(PostReadPushHeaderPlugin), old(ghost.trace))
 //@   ensures[stops-at-first-veto] !statOK(result) ==> (exists k int :: 0 < k && k <= len(p.plugins) && ghost.trace == trS(rowof(p.plugins), off(p.plugins), k, type(PostReadPushHeaderPlugin), old(ghost.trace)) && ifc(rowof(p.plugins)[off(p.plugins) + k - 1], type(PostReadPushHeaderPlugin)))
@@ -486,7 +517,10 @@ package erpc
 //@ func (*handlerCtx).bindPush
 //@   property C09 C03
 //@   flags libframe
-//@   modifies c.stat, c.handler, c.pluginContainer, c.arg, userCtx(c), ghost.trace, ghost.vetoed, lockset
+//@   modifies c.stat, c.handler, c.pluginContainer, c.arg, userCtx(c), ghost.trace, ghost.vetoed, lockset, ghost.pushHeaderStageRuns
+// every incoming PUSH/CALL - whatever its header says - is shown to the global
+// header hooks exactly once, before anything else is decided about it
+//@   ensures[header-hooks-see-every-message-once] @C09 ghost.pushHeaderStageRuns == old(ghost.pushHeaderStageRuns) + 1
 //@   requires sentinelsIntact() && c.handler == nil
 //@   requires @C03 ctxShape(c)
 //@   ensures[no-route-no-ok] @C03 c.handler == nil ==> !statOK(c.stat)
@@ -496,7 +530,8 @@ package erpc
 //@ func (*handlerCtx).bindCall
 //@   property C09 C03
 //@   flags libframe
-//@   modifies c.stat, c.handler, c.pluginContainer, c.arg, userCtx(c), ghost.trace, ghost.vetoed, lockset
+//@   modifies c.stat, c.handler, c.pluginContainer, c.arg, userCtx(c), ghost.trace, ghost.vetoed, lockset, ghost.callHeaderStageRuns
+//@   ensures[header-hooks-see-every-message-once] @C09 ghost.callHeaderStageRuns == old(ghost.callHeaderStageRuns) + 1
 //@   requires sentinelsIntact() && c.handler == nil
 //@   requires @C03 ctxShape(c)
 //@   ensures[no-route-no-ok] @C03 c.handler == nil ==> !statOK(c.stat)
@@ -689,7 +724,7 @@ package erpc
 //@ ghost global lastRedialOK bool
 //@ func (*session).redialForClient
 //@   property C13
-//@   flags locks libframe frame-unchecked
+//@   flags locks libframe frame-unchecked seed-elems
 //@   modifies allof(type(session)), allof(type(socket.socket)), lockset, waitgroups, ghost.redialRuns, ghost.dialAttempts, ghost.lastHookOK, ghost.lastRedialOK
 //@   ghostset ghost.lastRedialOK = result
 //@   requires !held(addr(s.lock))
@@ -697,6 +732,10 @@ package erpc
 //@   ensures[locks-restored] sameLocks()
 //@   ensures[no-redial-config] old(s.redialForClientLocked) == nil ==> !result && ghost.redialRuns == old(ghost.redialRuns)
 //@   ensures[at-most-one-round] ghost.redialRuns <= old(ghost.redialRuns) + 1
+// "later calls succeed once the server is reachable" / "fail after at most one
+// further bounded round of attempts": a trigger for the current connection starts a
+// round from every disconnected state - also after an earlier round gave up
+//@   ensures[every-disconnected-state-gets-a-further-round] @C13 old(s.redialForClientLocked) != nil && oldConn == old(as(s.socket, type(*socket.socket)).Conn) && (old(s.status) == statusOk || old(s.status) == statusPassiveClosing || old(s.status) == statusPassiveClosed || old(s.status) == statusRedialFailed) ==> ghost.redialRuns == old(ghost.redialRuns) + 1
 
 // postDial/postAccept/postDisconnect run session-level hooks: user code that may
 // use the PreSession API (ids, ages, swap, early sends) but cannot change the
@@ -832,8 +871,9 @@ package erpc
 // Proto.Unpack to NewBodyFunc is the assumption here, listed in the evidence.)
 //@ trusted socket.(*socket).ReadMessage in erpc.(*session).startReadAndHandle
 //@   flags libframe may-panic
-//@   modifies msgAll(as(message, type(*socket.message))), lockset, ghost.appendFailed, ghost.maxAlloc, ghost.framesRead, ghost.pendingReplyLock, ghost.trace, ghost.vetoed, ctx.start, ctx.pluginContainer, ctx.stat, ctx.handler, ctx.arg, ctx.callCmd, ctx.swap, ctx.context, allof(type(callCmd))
+//@   modifies msgAll(as(message, type(*socket.message))), lockset, ghost.appendFailed, ghost.maxAlloc, ghost.framesRead, ghost.lastReadFailed, ghost.pendingReplyLock, ghost.trace, ghost.vetoed, ctx.start, ctx.pluginContainer, ctx.stat, ctx.handler, ctx.arg, ctx.callCmd, ctx.swap, ctx.context, allof(type(callCmd))
 //@   ghostset ghost.framesRead = old(ghost.framesRead) + 1
+//@   ghostset ghost.lastReadFailed = result != nil
 //@   ensures[bound-or-untouched] boundCtx(ctx)
 //@   ensures[binding-keeps-shape] ctx.sess == old(ctx.sess) && ctxShape(ctx)
 //@   ghostset ghost.pendingReplyLock = ctx.callCmd != nil
@@ -973,7 +1013,12 @@ package erpc
 //@   ensures[index-only-own-entry] @C07 forall h *SessionHub, k iface :: {h.sessions.#gkeys[k]} old(h.sessions.#gvals[k]) != iface(type(*session), s) ==> h.sessions.#gkeys[k] == old(h.sessions.#gkeys[k]) && h.sessions.#gvals[k] == old(h.sessions.#gvals[k])
 
 //@ func (*session).startReadAndHandle
-//@   property C06 C03 C02
+//@   property C06 C03 C02 C08
+// C08: a frame that was read is left undispatched only if reading it failed or the
+// session is neither established nor closing actively (replies to calls issued
+// before Close, and calls whose replies are owed, are still read and handled
+// while the session closes gracefully)
+//@   ensures[frame-dropped-only-on-read-error-or-closed-session] @C08 ghost.framesRead - old(ghost.framesRead) == (ghost.handleScheduled - old(ghost.handleScheduled)) + (ghost.handleRuns - old(ghost.handleRuns)) || ghost.lastReadFailed || !ghost.lastGoon
 //@   flags recover-scope
 //@   requires s.peer != nil && s.socket != nil && as(s.socket, type(*socket.socket)) != nil && s.peer.pluginContainer != nil
 //@   requires @C03 sentinelsIntact()
@@ -982,7 +1027,7 @@ package erpc
 //@   requires @C02 !ghost.pendingReplyLock && sessInv(s)
 //@   ensures[no-orphan-reply-lock] @C02 !ghost.pendingReplyLock
 //@   loop 0: invariant[reply-lock-handed-on] @C02 !ghost.pendingReplyLock
-//@   loop 0: invariant[every-accepted-frame-dispatched] @C03 ghost.framesRead - old(ghost.framesRead) == (ghost.handleScheduled - old(ghost.handleScheduled)) + (ghost.handleRuns - old(ghost.handleRuns))
+//@   loop 0: invariant[every-accepted-frame-dispatched] @C03 @C08 ghost.framesRead - old(ghost.framesRead) == (ghost.handleScheduled - old(ghost.handleScheduled)) + (ghost.handleRuns - old(ghost.handleRuns))
 
 // ---- C07: the session index is exact ----------------------------------------------
 // ghost view of the hub's map: hubAt(sh, id) is the session indexed under id
@@ -1031,10 +1076,14 @@ package erpc
 //@   ensures[member] result ==> (exists i int :: 0 <= i && i < len(checkList) && s.status == checkList[i])
 //@   ensures[not-member] !result ==> (forall i int :: {checkList[i]} 0 <= i && i < len(checkList) ==> s.status != checkList[i])
 //@   loop 0: invariant[none-so-far] $idx >= -1 && (forall j int :: 0 <= j && j <= $idx ==> checkList[j] != s.status) && stat == s.status
+// ghost.lastGoon: the answer of the reader's latest "go on reading?" question
+//@ ghost global lastGoon bool
+//@ ghost global lastReadFailed bool
 //@ func (*session).goonRead
 //@   property C08
 //@   flags seed-elems
-//@   modifies nothing
+//@   modifies ghost.lastGoon
+//@   ghostset ghost.lastGoon = result
 //@   ensures[reads-while-ok-or-closing-actively] result <==> (s.status == statusOk || s.status == statusActiveClosing)
 
 // C07: healthy only while established - or, for a dialled session that owns a
@@ -1208,9 +1257,13 @@ package erpc
 //@   modifies ghost.heldAtCall
 //@   ghostset ghost.heldAtCall = ghost.poolGets - ghost.poolPuts
 //@ func makeCallHandlersFromFunc$3
-//@   property C01
+//@   property C01 C17
 //@   flags libframe
 //@   requires ctx != nil && ctxShape(ctx)
+// C17 (and every reply-stage hook that tells a failed message by its status): a
+// handler that succeeded leaves the context status unset - whatever OK-coded status
+// object the user's function returned - so "status set" means "failed" at PreWriteReply
+//@   ensures[success-leaves-the-status-unset] @C17 ctx.stat == old(ctx.stat) || !statOK(ctx.stat)
 //@   ensures[own-controller-per-invocation] ghost.poolGets == old(ghost.poolGets) + 1 && ghost.poolPuts == old(ghost.poolPuts) + 1
 //@   ensures[controller-held-while-the-function-runs] ghost.heldAtCall == old(ghost.poolGets - ghost.poolPuts) + 1
 //@ func makePushHandlersFromFunc$3
@@ -1219,10 +1272,19 @@ package erpc
 //@   requires ctx != nil && ctxShape(ctx)
 //@   ensures[own-controller-per-invocation] ghost.poolGets == old(ghost.poolGets) + 1 && ghost.poolPuts == old(ghost.poolPuts) + 1
 //@   ensures[controller-held-while-the-function-runs] ghost.heldAtCall == old(ghost.poolGets - ghost.poolPuts) + 1
-//@ func makeCallHandlersFromStruct$2
-//@   property C01
+//@ func makeCallHandlersFromFunc$1
+//@   property C17
 //@   flags libframe
 //@   requires ctx != nil && ctxShape(ctx)
+//@   ensures[success-leaves-the-status-unset] @C17 ctx.stat == old(ctx.stat) || !statOK(ctx.stat)
+//@ func makeCallHandlersFromStruct$2
+//@   property C01 C17
+//@   flags libframe
+//@   requires ctx != nil && ctxShape(ctx)
+// C17 (and every reply-stage hook that tells a failed message by its status): a
+// handler that succeeded leaves the context status unset - whatever OK-coded status
+// object the user's method returned - so "status set" means "failed" at PreWriteReply
+//@   ensures[success-leaves-the-status-unset] @C17 ctx.stat == old(ctx.stat) || !statOK(ctx.stat)
 //@   ensures[own-controller-per-invocation] ghost.poolGets == old(ghost.poolGets) + 1 && ghost.poolPuts == old(ghost.poolPuts) + 1
 //@   ensures[controller-held-while-the-method-runs] ghost.heldAtCall == old(ghost.poolGets - ghost.poolPuts) + 1
 //@ func makePushHandlersFromStruct$2
